@@ -19,9 +19,9 @@ RULE = ('one SimpleLoop, 1-4 WorldHandle doubles (real WorldHandle.load, a trans
         'the worlds other handles hold (left worlds must hold them); the generator never '
         'produces the K5 pattern on purpose (its witness is in known_findings.json); '
         'every operation may carry 1-3 one-shot reactions of the listener callbacks '
-        '(on_world_load / on_switch_in: Quit, quit_loop, another exception; on_switch_out / '
-        'on_quit: also switch() and bare SwitchWorld), nested to any depth; the K10 pattern is '
-        'never generated on purpose; non-trivial = at least 3 frames and one switch')
+        '(on_world_load / on_switch_in / on_switch_out / on_quit: Quit, quit_loop, another '
+        'exception, switch() and bare SwitchWorld - also while the loop is entering a world), '
+        'nested to any depth; non-trivial = at least 3 frames and one switch')
 TRUSTED = [
     'Coq 8.16.1 kernel + vm_compute (evaluation of C13_verdict on the observed logs)',
     'hand-written model Loop/Model.v tied to /repo by this correspondence run (sampled)',
